@@ -10,6 +10,7 @@ func TestC08Rapid(t *testing.T) { C08FL.RunRapid(t) }
 func TestC08Enum(t *testing.T) {
 	C08FL.RunCases(t, "status lines: 1000 codes x 3 terminators x 4 reasons x 4 version casings", true, enumStatusLines)
 	C08FL.RunCases(t, "request lines: 14 table methods x (exact, lower, +X, -1, every single case flip) x 3 terminators x {ParseFLine, ParseSIPMsg}", true, enumRequestLines)
+	C08FL.RunCases(t, "status-line prefix: every byte value at each of the first 8 positions of 3 templates (reply only for the letter-case variants of SIP/2.0 SP)", true, enumPrefixBytes)
 	C08FL.RunCases(t, "request near-misses (11 kinds) x 5 method tokens (3..18 bytes) x 2 terminators x {ParseFLine, ParseSIPMsg} x every two-step cut of the line", true, enumNearMissCuts)
 }
 
